@@ -2,8 +2,8 @@ SPECIFICATION Spec
 CONSTANTS
   Unit = 8
   Bursts = {2}
-  Rates <- RatesSet
-  SetRates <- RatesSet
+  Rates <- RatesSetInf
+  SetRates <- RatesSetInf
   Ns = {1, 2}
   Dts <- DtsSmall
   MaxEvents = 5
